@@ -149,6 +149,9 @@ func (d *unmarshalTextDecoder) Decode(ctx *RuntimeContext, cursor, depth int64, 
 	if s, ok := unquoteBytes(src); ok {
 		src = s
 	}
+	// src may be a window into the buffer that is still being decoded: its spare capacity is
+	// the rest of the document and not the unmarshaler's to append into
+	src = src[:len(src):len(src)]
 	v := *(*interface{})(unsafe.Pointer(&emptyInterface{
 		typ: d.typ,
 		ptr: *(*unsafe.Pointer)(unsafe.Pointer(&p)),
